@@ -264,6 +264,50 @@ def fam_direct(family='direct'):
                             yield case(family, refs, toks)
 
 
+# Values that must be inserted VERBATIM although they are special to typical replacement machinery: regex replacement
+# templates (backslash escapes, group references), sed/perl templates ($1, &), str.format / string.Template fields,
+# regex and glob metacharacters. `%` and `[`/`]` are left out: the product documents %(var)s / [index]
+# interpolation of the resolved string (out of scope here). None of them looks like a reference.
+SPECIAL_VALUES = [
+    'total\\tenergy', 'line\\nbreak', 'C:\\data\\new\\results', '^\\s*(\\d+)\\s+\\1$', 'a\\\\b', 'ends-with\\',
+    '\\', '\\\\', '\\g<0>', '\\g<name> \\0 \\1', '\\x41\\u0041', '$1 ${name} $& $$', '& && \\&', '{0} {} {name} {{x}}',
+    '.* a+b (c|d)? ^e$ f|g', '* ? ~ ! # ; < > " \' `', 'tab\there', 'two  spaces',
+]
+
+
+def fam_special_values(family='special-value'):
+    """an :output reference whose value (file contents, or the producer's stdout) contains characters that are special
+    to replacement templates; alone, wrapped, between literals, and next to a second reference (both orders)."""
+    q = (CONSUMER_STAGE, 'A')
+    for i, text in enumerate(SPECIAL_VALUES):
+        f = lookalike_file(text)
+        for p in ((0, 'A'), (CONSUMER_STAGE, 'BA')):
+            rp = [p[0], p[1], f, 'output', 'abs']
+            cont = {content_key(p[0], p[1], f): text}
+            for sp in psp(p):
+                yield case(family, [rp], [['r', 0, sp, 'bare']], cont)
+                yield case(family, [rp], [['l', '--filter'], ['r', 0, sp, 'key'], ['l', '--verbose']], cont)
+                for mq in ('ref', 'out'):
+                    rq = mkref(q, mq, 'rel')
+                    for order in ((0, 1), (1, 0)):
+                        base = [rp, rq]
+                        refs = [base[k] for k in order]
+                        ip, iq = order.index(0), order.index(1)
+                        yield case(family, refs, [['r', iq, 'rel', 'opt'], ['r', ip, sp, 'bare']], cont)
+        # the same value as the stdout of a dedicated producer (`stage0.v<i>:output`, no file)
+        v = (0, 'v%d' % i)
+        rv = [v[0], v[1], None, 'output', 'abs']
+        cont = {content_key(v[0], v[1], None): text}
+        yield case(family, [rv], [['l', '--filter'], ['r', 0, 'abs', 'bare'], ['l', '--verbose']], cont)
+        rq = mkref((0, 'x'), 'fref', 'abs')
+        for order in ((0, 1), (1, 0)):
+            base = [rv, rq]
+            refs = [base[k] for k in order]
+            iv, iq = order.index(0), order.index(1)
+            yield case(family, refs, [['r', iq, 'abs', 'key'], ['l', '--filter'], ['r', iv, 'abs', 'bare']], cont)
+
+
+
 # --------------------------------------------------------------------------------------- families (thorough extension)
 def fam_pair_full(names, family='pair-full'):
     """pairs: independent wrappers (3x3), both token orders, declared spelling = used spelling; plus declared spelling
@@ -332,7 +376,7 @@ def core_cases():
     # triples in the fixed core leave out the neutral name `x` (it is part of every other family and of the
     # thorough triples)
     return itertools.chain(fam_pair(n), fam_triple([x for x in n if x != 'x']), fam_mixed(n), fam_lookalike(n),
-                           fam_literal(n), fam_methods(n), fam_direct())
+                           fam_literal(n), fam_methods(n), fam_direct(), fam_special_values())
 
 
 def extension_cases():
